@@ -28,7 +28,7 @@ PROPS = {
                  'the first-order-rotation velocity integral (derived by polynomial integration)'],
         undecided=['order of accuracy on general (sinusoidal) signals (a limit statement)']),
     'C17': dict(
-        rules=[rot.rot_series, rot.rot_exp, rot.euler_conv, errmodel.es_first],
+        rules=[rot.rot_series, rot.rot_exp, rot.euler_inv, rot.euler_conv, errmodel.es_first],
         decided=['small-angle arm is the Maclaurin truncation of the closed form and continuous '
                  'across the branch to 2^-53',
                  'rotation-vector routine is the exponential map (Rodrigues coefficients as '
@@ -158,8 +158,10 @@ PROPS = {
                    'first-order recovery of a perturbation (numerical)']),
     'C14': dict(
         rules=[sensor.sm_names, sensor.sm_count, sensor.sm_accum, sensor.sm_sign, sensor.sm_apply,
-               purity.rng_src],
-        decided=['state names produced by estimator and simulator and parsed by the estimator '
+               sensor.sm_gate, purity.rng_src],
+        decided=['the flag gating the reading-dependent part of the output matrix is true exactly '
+                 'when some scale/misalignment state exists (decided by length of the index list)',
+                 'state names produced by estimator and simulator and parsed by the estimator '
                  'agree', 'output/input axis roles at all six sites',
                  'construction counters paired with appends/stores on every path; slices use the '
                  'indexing counter (all 2^18 masks at once)',
@@ -173,7 +175,7 @@ PROPS = {
                lambda c: sched.sched_pair(c, (sched.FF,)),
                lambda c: sched.sched_handover(c, (sched.FF,)),
                lambda c: sched.sched_progress(c, (sched.FF,)),
-               idxdom.idx_domain],
+               idxdom.idx_domain, sensor.sm_gate],
         decided=['positional cursors address rows of their own time axis only (the readings '
                  'averaged for the sensor-state coupling come from the propagated interval)',
                  'state and noise block layout contiguous, disjoint and identical in all six '
@@ -213,8 +215,8 @@ PROPS = {
                    'behaviour exactly at the poles (division by cos lat)',
                    'scalar/vector call-form agreement']),
     'C05': dict(
-        rules=[errmodel.es_inv, errmodel.es_first, errmodel.es_perturb, integrator.es_copy,
-               integrator.es_2drows, geo.geo_perturb, geo.role_radii],
+        rules=[rot.euler_inv, errmodel.es_inv, errmodel.es_first, errmodel.es_perturb,
+               integrator.es_copy, integrator.es_2drows, geo.geo_perturb, geo.role_radii],
         decided=['output->internal is a left inverse of internal->output by construction (same '
                  'builder, inv, S E = I_7)',
                  'a correction changes the state, to first order, by exactly -T_out x in output '
@@ -265,12 +267,15 @@ def run(ctx):
         'util.mm_prod/mv_prod/skew_matrix semantics are read from their source on each run',
     ]
     from .model import AnalysisError
+    deferred = None
     for r in spec['rules']:
         try:
             r(ctx)
         except AnalysisError as e:
-            if not ctx.findings:
-                raise
-            # violations were already found: they take precedence over a rule that cannot
-            # analyse the (broken) code
-            ctx.info('ANALYSIS', 'rule skipped after findings: %s' % e)
+            # a rule that cannot analyse the code does not stop the others: violations found
+            # by any rule take precedence; without any, the run is analysis-broken (exit 2)
+            if deferred is None:
+                deferred = e
+            ctx.info('ANALYSIS', 'rule not applicable to this code: %s' % e)
+    if deferred is not None and not ctx.findings:
+        raise deferred
